@@ -5,6 +5,18 @@ sys.path.insert(0, os.path.dirname(os.path.abspath(__file__)))
 VERIF = os.path.dirname(os.path.dirname(os.path.abspath(__file__)))
 
 CLAIMS = {
+ 'C07': dict(text='Lean theorems (Props/C07.lean): every recursive entry point (eval, macroexpand, print, read, call-native-function) answers above the configured depth with the trappable stackoverflow signal; if-branches, called function bodies and the argument of eval are evaluated at the SAME depth (tail_if, tail_call, tail_eval); a tail-recursive countdown runs for EVERY n at a depth independent of n (countdown_all_n); the printer\'s fuel never strikes before the depth limit. Tied to eval/mod.rs by differential execution of loops far beyond the limit and of non-tail recursion around the limit (first signalling depth must agree).',
+             note='partial: bytes of native stack per level are outside the model — measured by running the dev-profile binary on its configured stack for the deepest witness of every recursive path',
+             technique='Lean 4 proof (depth accounting, induction on the iteration count) + differential correspondence + process-level stack measurement', ref='5/C07'),
+ 'C08': dict(text='Lean theorems (Props/C08.lean): a trap whose body yields a value yields it; a non-nil signal from the body runs the handler with *trapped-signal* bound to exactly that value in the trap\'s own environment; an abort (Err nil) passes through every trap; a handler\'s signal propagates outward; signal hands its argument over unchanged and (signal nil) is an ordinary error; the first signalling operand wins; every error a native raises itself is a property list with kind and source. Tied to eval/mod.rs, signal/mod.rs by differential execution of generated trap nestings with a Python oracle that knows which trap must catch.',
+             note='trusted: Lean kernel; evaluator model tied by differential execution; the correspondence check',
+             technique='Lean 4 proof (decision logic of traps, case analysis over all natives) + differential correspondence with an AST oracle', ref='5/C08'),
+ 'C15': dict(text='Lean theorems (Props/C15.lean): define never overwrites (signal, state untouched); a fresh define binds exactly (current module, name); undefine removes exactly that pair and allows re-definition; evaluator-wide invariant by induction over the whole mutual recursion: NO evaluation changes the current module — in particular load-all restores it on success, read error, incomplete input, invalid string, signal at any form, abort, interrupt, stackoverflow, nested loads included — and the restoration never panics. Tied to the Rust code by differential execution of generated define/undefine/export/load histories.',
+             note='trusted: Lean kernel; evaluator model tied by differential execution; the correspondence check',
+             technique='Lean 4 proof (invariant by fuel induction over all seven evaluator functions and all 40 natives) + differential correspondence', ref='5/C15'),
+ 'C19': dict(text='Lean theorems (Props/C19.lean): with a debugger attached a pending INTERRUPT / ABORT is honoured at the very next evaluator loop head whatever is being evaluated (interrupted signal = ordinary non-nil signal; abort = Err nil); every loop head polls exactly once; commands not yet sent do not disturb; other commands are ignored; receive honours the commands; the endless tail loop is stopped for EVERY delivery step k; modules and current module are untouched afterwards. Tied to eval/mod.rs by scripted delivery at loop head k (hook H3) compared step for step with the model.',
+             note='partial: thread scheduling, latency and mpsc internals are runtime behaviour (any timing is modelled as "available from loop head k on")',
+             technique='Lean 4 proof (polling logic, induction on the delivery step) + deterministic differential correspondence through the scripted umbilical', ref='5/C19'),
  'C12': dict(text='Lean theorems (Props/C12.lean) over ALL pairs of 64-bit integers: the add/substract/multiply/divide/</> natives of the model return the exact result when representable and the prescribed signal otherwise (division truncating toward zero, MIN / -1 signals); integer literals round-trip. Tied to numbers/mod.rs by differential execution of real natives vs model vs Python bigint on every run.',
              note='trusted: Lean kernel; std checked_* and str::parse::<i64> as modelled (bit level / from core::num source); the correspondence check',
              technique='Lean 4 proof over BitVec 64 / Int + differential correspondence (real natives vs model vs bigint oracle)', ref='5/C12'),
